@@ -7,6 +7,7 @@ if [ ! -d $M ]; then git -C /repo worktree add -q --detach $M HEAD || exit 1; fi
 git -C $M checkout -q --detach $(git -C /repo rev-parse HEAD) && git -C $M checkout -- . && git -C $M clean -fdq
 for d in /verif/seeded/*/; do
   n=$(basename $d)
+  if python3 -c "import json,sys;sys.exit(0 if json.load(open('$d/meta.json')).get('obsolete') else 1)"; then echo "OBSOLETE $n (no longer breaks the property on the repaired tree, see meta.json)"; continue; fi
   # the check that is expected to fire: the property the change is filed under, unless meta.json names another (caught_by)
   id=$(python3 -c "import json;m=json.load(open('$d/meta.json'));print(m.get('caught_by') or m['property'])")
   git -C $M apply $d/patch.diff || { echo "$n: patch does not apply"; continue; }
